@@ -61,7 +61,7 @@ func (obj *StandardObject) IsA(class string) bool {
 // Init the instance slots from the provided args list. If the scope is not
 // nil then send :init is called.
 func (obj *StandardObject) Init(scope *slip.Scope, args slip.List, depth int) {
-	if fi := slip.FindFunc("initialize-instance"); fi != nil {
+	if fi := slip.FindFunc("initialize-instance", &Pkg); fi != nil {
 		_ = fi.Apply(scope, append(slip.List{obj}, args), depth+1)
 	}
 	if scope != nil {
